@@ -46,6 +46,66 @@ mutual
     | .mk _ modes, n => iterChain lbl src modes n
 end
 
+/-! ### the HTML-like label of a node (`html_table_label`, `safe_html_name`)
+
+`safe_html_name(n)` is the HTML spelling the `particle` package gives for an EvtGen name and, for any
+other name, the name with the three markup characters escaped.  The table of HTML spellings is an
+oracle (`tbl`, sent by the harness for the names of the chain). -/
+
+def escapeHtmlChars : List Char → List Char
+  | [] => []
+  | c :: r =>
+    if c = '&' then '&' :: 'a' :: 'm' :: 'p' :: ';' :: escapeHtmlChars r
+    else if c = '<' then '&' :: 'l' :: 't' :: ';' :: escapeHtmlChars r
+    else if c = '>' then '&' :: 'g' :: 't' :: ';' :: escapeHtmlChars r
+    else c :: escapeHtmlChars r
+
+def safeHtml (tbl : List (String × String)) (n : String) : List Char :=
+  match dget tbl n with
+  | some h => h.toList
+  | none => escapeHtmlChars n.toList
+
+/-- `<TD BORDER="0" CELLPADDING="2">text</TD>` -/
+def tdPlain (text : List Char) : List Char :=
+  "<TD".toList ++ " BORDER=\"0\" CELLPADDING=\"2\"".toList ++ ['>'] ++ text ++ "</TD>".toList
+
+/-- `<TD BORDER="1" CELLPADDING="5" PORT="p<i>">text</TD>` -/
+def tdPort (i : Nat) (text : List Char) : List Char :=
+  "<TD".toList ++ (" BORDER=\"1\" CELLPADDING=\"5\" PORT=\"p".toList ++ (toString i).toList ++ ['"']) ++ ['>']
+    ++ text ++ "</TD>".toList
+
+def trOf (cells : List (List Char)) : List Char := "<TR>".toList ++ cells.flatten ++ "</TR>".toList
+
+/-- the cells shown: a line without daughters still gets one (empty) cell -/
+def shownNames (names : List String) : List String := if names.isEmpty then [""] else names
+
+def portRows (safe : String → List Char) : List String → Nat → List (List Char)
+  | [], _ => []
+  | n :: r, i => trOf [tdPort i (safe n)] :: portRows safe r (i + 1)
+
+def tableAttrs (addTags : Bool) (bg : String) : List Char :=
+  (if addTags then " BORDER=\"0\" CELLSPACING=\"0\" BGCOLOR=\"".toList
+   else " BORDER=\"0\" CELLSPACING=\"0\" CELLPADDING=\"0\" BGCOLOR=\"".toList) ++ bg.toList ++ ['"']
+
+/-- the rows of the table: one row per name with a PORT tag, or a single row of plain cells -/
+def labelRows (safe : String → List Char) (names : List String) (addTags : Bool) : List (List Char) :=
+  if addTags then portRows safe (shownNames names) 0
+  else [trOf ((shownNames names).map fun n => tdPlain (safe n))]
+
+/-- `html_table_label(names, add_tags, bgcolor)` -/
+def htmlTableLabel (safe : String → List Char) (names : List String) (addTags : Bool) (bg : String) : List Char :=
+  "<<TABLE".toList ++ tableAttrs addTags bg ++ ['>'] ++ (labelRows safe names addTags).flatten ++ "</TABLE>>".toList
+
+/-- the label of a decay-line node: PORT rows on the darker background when a daughter decays,
+    else one row of plain cells on the light background -/
+def GNode.label (safe : String → List Char) (nd : GNode) : List Char :=
+  if nd.ports then htmlTableLabel safe nd.cells true "#9abad6"
+  else htmlTableLabel safe nd.cells false "#eef3f8"
+
+/-- the label of the root node -/
+def rootLabel (safe : String → List Char) (mother : String) : List Char :=
+  htmlTableLabel safe [mother] true "#568dba"
+
 structure Graph where
   root : String            -- the cell of the root node `mother`
   nodes : List GNode
